@@ -191,7 +191,7 @@ def multi_law(n: int, k0: int, k1: int, k2: int, k3: int, k4: int, c1: int, c2: 
     """
     text = pinval('text', 0)
     n = cz(n, 0, pinval('nmax', 4))
-    classes = [cz(k, 0, 2 if i else 4) for i, k in enumerate([k0, k1, k2, k3, k4][:n])]
+    classes = [cz(k, 0, 1 if i else 4) for i, k in enumerate([k0, k1, k2, k3, k4][:n])]
     c1 = cz(c1, 0, n)
     c2 = cz(c2, c1, n)
     script = []
@@ -212,5 +212,5 @@ def obligations(tier):
                               need_kinds=('rolled',)))
         obs.append(Ob('spool_law', timeout=T, pins={'text': text, 'preset': 0, 'nops': 2 if q else 3}, need_kinds=('rolled',)))
         for op1 in range(len(MOPS)):
-            obs.append(Ob('multi_law', timeout=T, pins={'text': text, 'nmax': 2 if q else 4, 'nops': 2 if q else 3, 'op1': op1}, need_kinds=('empty_member', 'full')))
+            obs.append(Ob('multi_law', timeout=T, pins={'text': text, 'nmax': 3 if q else 4, 'nops': 2 if q else 3, 'op1': op1}, need_kinds=('empty_member', 'full')))
     return obs
